@@ -19,7 +19,7 @@ LEVEL_TEXT = ('Lean 4 theorems, for all shapes, masks, amplitudes and OPDs: a su
               'a fresh wavefront through any non-empty chain of array-masked partitioned planes, then propagate_dft as the driver models it (generated window block and shapes, a tilt shift common to all fields, optional output mask: segmented_eq_monolithic_propagateDft) -> equal Wavefront.field and intensity at every sample; well-formedness follows from the masks alone for constructed planes (splitPlane_wf_of_masks); Tilt planes anywhere in the chain and Wavefront(tilt=) as ONE theorem (segmented_eq_monolithic_interleaved: every field carries each Tilt once, data unchanged); through propagate_fft by composition with C09 (segmented_eq_monolithic_propagate_fft); chain_exp: the explicit product of amplitude*exp(2 pi i opd/lambda) over the planes. The NumPy plumbing is a hand model checked against the '
               'implementation, with both descriptions run on the real code.')
 LEVEL_NOTE = ('Partial: segments / intermediate fields with exactly one element are excluded by hypothesis (open known finding '
-              'KF-C03-one-pixel-segment; the hypothesis ExtOK is evaluated by the model on every generated case: c03.extok, extOKb_iff); the theorems '
+              'KF-C03-one-pixel-segment; the hypothesis ExtOK is evaluated by the model (c03.extok, extOKb_iff) on every case of the classes the ExtOK theorems cover: segmented-vs-monolithic chains in both number systems and the mixed Tilt/segmented chains; not for the fitted-tilt, re-use and big-aperture classes); the theorems '
               'cover a shift common to all fields (shared Tilt planes, Wavefront(tilt=)), an output mask and propagate_fft (via C09); per-segment '
               'fitted tilts are correspondence + oracle only. '
               'Trusted: Lean kernel, py2lean subset semantics, NumPy semantics as modelled, np.dot sums, generator coverage.')
@@ -462,6 +462,11 @@ def _req(c, planes):
         r['prop'] = {'dx': vlib.fl(p['dx']), 'du': vlib.fl(p['du']), 'os': p['os'], 'shape': p['shape'], 'prop_shape': p['prop_shape'] or p['shape']}
     return r
 
+def _box_req(pl):
+    """a plane for c03.extok: only the mask matters (bounding boxes); amplitude and OPD are dummies"""
+    r = H7.plane_req(dict(pl, px=None, amp={'scalar': 1.0}, opd={'scalar': 0.0}), 'cf')
+    return r
+
 def _prop_req(p):
     r = {'dx': vlib.fl(p['dx']), 'du': vlib.fl(p['du']), 'os': p['os'], 'shape': p['shape'], 'prop_shape': p['prop_shape'] or p['shape']}
     mk = p.get('mask')
@@ -483,7 +488,9 @@ def _mixed_req(c, planes):
 def requests(c, io):
     if c['kind'] == 'reuse': return []          # oracle-only
     if c.get('extreme') == 'big': return []          # oracle-only (size)
-    if c['kind'] == 'mixed': return [_mixed_req(c, c['seg']), _mixed_req(c, c['mono'])]
+    if c['kind'] == 'mixed':
+        ext = [{'op': 'c03.extok', 'planes': [_box_req(pl[x]) for x in c['order'] if not isinstance(x, dict)]} for pl in (c['seg'], c['mono'])]
+        return [_mixed_req(c, c['seg']), _mixed_req(c, c['mono'])] + ext
     if c['kind'] == 'tilt':
         # the fitted OPD and tilt coefficients come from np.linalg.lstsq (trusted contract, C04): the model takes the fitted plane
         if 'exc' in io: return []
@@ -494,8 +501,8 @@ def requests(c, io):
         return [{'op': 'c03.chain', 'wavelength': vlib.fbits(c['wavelength']), 'wtilt': None, 'elements': [pl],
                  'prop': {'dx': vlib.fl(c['dx']), 'du': vlib.fl(c['du']), 'os': c['os'], 'shape': [c['oshape']] * 2, 'prop_shape': [c['pshape']] * 2}}]
     # third/fourth request: the theorems' input-level hypothesis ExtOK evaluated by the model on both descriptions
-    ext = [{'op': 'c03.extok', 'planes': [H7.plane_req(dict(p, px=None), 'cf' if c['mode'] == 'cf' else 'gi') for p in pl]} for pl in (c['seg'], c['mono'])]
-    return [_req(c, c['seg']), _req(c, c['mono'])] + (ext if c['mode'] == 'cf' else [])
+    ext = [{'op': 'c03.extok', 'planes': [_box_req(p) for p in pl]} for pl in (c['seg'], c['mono'])]
+    return [_req(c, c['seg']), _req(c, c['mono'])] + ext
 
 def _scale(c, key='field', pre=False):
     """bound on the compared quantity (tolerance = 1e-9*(1 + this)): |field| <= prod max|amp| before propagation and
@@ -541,7 +548,10 @@ def compare(c, io, mo):
     if c['kind'] == 'mixed':
         if 'exc' in io: return f"implementation raised {io['exc']}: {io.get('msg')}"
         b = (_scale(c, 'field', True), _scale(c, 'field'))
-        for name, m in zip(('seg', 'mono'), mo):
+        for name, m in zip(('seg', 'mono'), mo[2:]):
+            if not m.get('ok') or m.get('extok') is not True:
+                return f'{name}: the generator\'s scope test and the theorems\' hypothesis ExtOK disagree: model says {m}'
+        for name, m in zip(('seg', 'mono'), mo[:2]):
             d = _cmp_chain(io[name]['fields'], io[name]['field'], io[name]['intensity'], m, b)
             if d: return f'{name}: {d}'
         return None
